@@ -413,7 +413,18 @@ def run(ctx):
     for f, e in calls_to(prog, 'ParseExitStatus'):
         ctx.check('C05.G4', not e.get('disc'), f.name, 'ParseExitStatus:discarded', f.where(e),
                   'the parsed status is stored (%s)' % f.name)
-    ctx.floor('C05.G4', 5)
+    # the same statement decided by evaluation, whatever form the function has: for every wait status "exited with code c"
+    # (c << 8) the result is c itself - in particular no code but 0 becomes ExitSuccess, and 130 stays a plain failure code
+    import charset as _cs
+    pname_ = pes.params[0]['n'] if pes.params else 'status'
+    wrong = []
+    for code in range(0, 256):
+        rv = _cs.returned_for_value(pes, pname_, code << 8)
+        if rv != {code}:
+            wrong.append((code, sorted(map(str, rv))))
+    ctx.check('C05.G4', not wrong, pes.name, 'exit-code:not-transparent:%s' % (wrong[0][0] if wrong else ''), pes.loc,
+              'ParseExitStatus(exited with code c) == c for every c in 0..255%s' % ((' - differs for %s' % wrong[:4]) if wrong else ''))
+    ctx.floor('C05.G4', 6)
     check_child_lifecycle(ctx)
 
     # ---- E1 -------------------------------------------------------------------------------------
